@@ -1,8 +1,13 @@
 // C12 harness: binds specs/ds/PDFTree.tla (scenario replay, spec -> impl) and
-// specs/ds/PDFContractTrace.tla (recorded random histories, impl -> spec) to ompl::PDF<T>.
+// specs/ds/PDFContractTrace.tla / PDFApproxTrace.tla (recorded random histories, impl -> spec)
+// to ompl::PDF<T>.
 //
 //   pdf replay <graph.ndjson> [pairs|edges] [walks] [shard nshards]   replay the TLC state graph
-//   pdf record <out.ndjson> <nops> <variant>          drive the real PDF randomly and log a trace
+//   pdf record <out.ndjson> <nops> <small|mixed|ctor>   random history, integer weights, dyadic r
+//                                                       (validated by PDFContractTrace, exact)
+//   pdf record <out.ndjson> <nops> nonrep               random history, weights like 0.1 / 1e-9 / 1e12
+//                                                       logged in fixed point (PDFApproxTrace); meant
+//                                                       for the sanitizer-free build
 //
 // Replay verdicts use contract observations only: size(), getWeight(handle) of every live
 // handle, getElements() listing exactly the survivors (and the same Element objects the API
@@ -17,10 +22,41 @@
 #include "ompl/datastructures/PDF.h"
 #include <algorithm>
 #include <cmath>
+#include <cstdarg>
+#include <cstdlib>
 #include <memory>
+#include <new>
 #include <set>
+#include <sys/mman.h>
+#include <sys/wait.h>
 
 using vt::json;
+
+// Only in the sanitizer-free build, and only while recording histories with non-representable
+// weights: memory is handed out zeroed and never recycled.  When sample() walks off the end of
+// its storage it then finds a null pointer or the address of a dead Element, never by accident
+// the address of a live one, so the recorded outcome ("what came back is not a surviving element")
+// does not depend on what the allocator happens to reuse.  Builds with ASan keep ASan's allocator.
+#if !defined(__SANITIZE_ADDRESS__)
+static bool g_keepFreed = false;
+void *operator new(std::size_t n)
+{
+    void *p = g_keepFreed ? std::calloc(1, n ? n : 1) : std::malloc(n ? n : 1);
+    if (!p)
+        throw std::bad_alloc();
+    return p;
+}
+void operator delete(void *p) noexcept
+{
+    if (!g_keepFreed)
+        std::free(p);
+}
+void operator delete(void *p, std::size_t) noexcept
+{
+    if (!g_keepFreed)
+        std::free(p);
+}
+#endif
 
 // ---- payload types: a plain int, and a non-trivially-copyable record (as planners store)
 struct Tagged
@@ -55,6 +91,29 @@ struct Pay<Tagged>
     }
 };
 
+// ---- where are we: kept in memory shared with a supervising parent process, so that a sanitizer
+// abort (which kills the process without running any handler of ours) can still be reported with
+// the scenario / operation that was being executed.
+struct Shared
+{
+    int len;
+    int edges[60];    // replay: indices of the edges of the current scenario, in order
+    char note[256];   // record: the operation about to be executed
+};
+static Shared *g_sh = nullptr;
+static const vt::Edge *g_base = nullptr;
+static void vnote(const char *fmt, ...)
+{
+    if (vt::Trace::current())
+        vt::Trace::current()->flush();  // everything completed so far is on disk before the next call
+    if (!g_sh)
+        return;
+    va_list ap;
+    va_start(ap, fmt);
+    vsnprintf(g_sh->note, sizeof g_sh->note, fmt, ap);
+    va_end(ap);
+}
+
 struct Metrics
 {
     long orderDrift{0}, pickDrift{0}, samples{0}, sampleSteps{0}, zeroTotalStates{0}, boundaryChoices{0};
@@ -70,6 +129,12 @@ struct Driver
     std::map<int, Elem *> handle;  // uid -> handle returned by add()
     std::map<int, int> weight;     // uid -> weight given by the last add / update
     std::string err;
+
+    Driver()
+    {
+        if (g_sh)
+            g_sh->len = 0;  // a new scenario starts
+    }
 
     bool fail(const std::string &w)
     {
@@ -225,6 +290,8 @@ struct Driver
         const json &a = e.args;
         const std::size_t n = byPos.size();
         int fresh = 0;
+        if (g_sh && g_base && g_sh->len < 60)
+            g_sh->edges[g_sh->len++] = (int)(&e - g_base);
         auto slotUid = [&](const char *k) -> int {
             std::size_t p = a[k].get<std::size_t>();
             return p >= 1 && p <= n ? byPos[p - 1] : 0;
@@ -407,6 +474,7 @@ static void record(const std::string &out, long nops, unsigned long long seed, c
             }
             else
                 num = rng.below(den + 1);
+            vnote("sample(%lld/%d) with %zu elements", num, den, pdf->size());
             const P &got = pdf->sample((double)num / (double)den);
             int uid = 0;
             for (auto &h : handle)
@@ -433,6 +501,7 @@ static void record(const std::string &out, long nops, unsigned long long seed, c
                 d.push_back(Pay<P>::make(uids.back()));
                 w.push_back(wi.back());
             }
+            vnote("PDF(vector of %d, weights)", m);
             pdf.reset(new PDF(d, w));
             // the constructor hands out no handles: they are the listed Element objects
             const auto &els = pdf->getElements();
@@ -468,6 +537,7 @@ static void record(const std::string &out, long nops, unsigned long long seed, c
                 if (live >= cfg.maxLive)
                     continue;
                 int u = nextUid++, w = pickWeight();
+                vnote("add(id %d, weight %d) to %d elements", u, w, live);
                 handle[u] = pdf->add(Pay<P>::make(u), (double)w);
                 weight[u] = w;
                 obs(json{{"e", "Add"}, {"id", u}, {"w", w}});
@@ -484,6 +554,7 @@ static void record(const std::string &out, long nops, unsigned long long seed, c
                     u = Pay<P>::uid(els[els.size() - 2]->data_);
                 else
                     u = liveUid();
+                vnote("remove(id %d) from %d elements", u, live);
                 pdf->remove(handle[u]);
                 handle.erase(u);
                 weight.erase(u);
@@ -492,12 +563,14 @@ static void record(const std::string &out, long nops, unsigned long long seed, c
             else if (op < 97)
             {
                 int u = liveUid(), w = pickWeight();
+                vnote("update(id %d, weight %d) among %d elements", u, w, live);
                 pdf->update(handle[u], (double)w);
                 weight[u] = w;
                 obs(json{{"e", "Update"}, {"id", u}, {"w", w}});
             }
             else if (rng.below(4) == 0)
             {
+                vnote("clear() of %d elements", live);
                 pdf->clear();
                 handle.clear();
                 weight.clear();
@@ -511,6 +584,7 @@ static void record(const std::string &out, long nops, unsigned long long seed, c
         while (!pdf->empty())
         {
             int u = liveUid();
+            vnote("remove(id %d) from %zu elements (final drain)", u, pdf->size());
             pdf->remove(handle[u]);
             handle.erase(u);
             weight.erase(u);
@@ -611,6 +685,7 @@ static void recordNonrep(const std::string &out, long nops, unsigned long long s
         auto sampleAt = [&](double r) {
             if (pdf.empty())
                 return;
+            vnote("sample(%.17g) with %zu elements", r, pdf.size());
             const P &got = pdf.sample(r);
             int uid = 0;  // stays 0 when what came back is not the data of a surviving element
             for (auto &h : handle)
@@ -641,6 +716,7 @@ static void recordNonrep(const std::string &out, long nops, unsigned long long s
         };
         auto doAdd = [&](double w) {
             int u = nextUid++;
+            vnote("add(id %d, weight %.17g) to %zu elements", u, w, pdf.size());
             handle[u] = pdf.add(Pay<P>::make(u), w);
             weight[u] = w;
             obs(json{{"e", "Add"}, {"id", u}, {"w", vt::tlcInt(fix(w))}});
@@ -670,6 +746,7 @@ static void recordNonrep(const std::string &out, long nops, unsigned long long s
                 else if (op < 52)
                 {
                     int u = liveUid();
+                    vnote("remove(id %d) from %d elements", u, live);
                     pdf.remove(handle[u]);
                     handle.erase(u);
                     weight.erase(u);
@@ -679,12 +756,14 @@ static void recordNonrep(const std::string &out, long nops, unsigned long long s
                 {
                     int u = liveUid();
                     double w = rg.ws[rng.below((int)rg.ws.size())];
+                    vnote("update(id %d, weight %.17g) among %d elements", u, w, live);
                     pdf.update(handle[u], w);
                     weight[u] = w;
                     obs(json{{"e", "Update"}, {"id", u}, {"w", vt::tlcInt(fix(w))}});
                 }
                 else
                 {
+                    vnote("clear() of %d elements", live);
                     pdf.clear();
                     handle.clear();
                     weight.clear();
@@ -696,13 +775,14 @@ static void recordNonrep(const std::string &out, long nops, unsigned long long s
     std::cout << "RECORDED " << tr.count() << std::endl;
 }
 
-int main(int argc, char **argv)
+static int work(int argc, char **argv)
 {
     vt::installCrashHandlers();
     std::string mode = argc > 1 ? argv[1] : "";
     if (mode == "replay" && argc > 2)
     {
         vt::Graph g(argv[2]);
+        g_base = g.edges.data();
         vt::Report rep;
         std::string depthMode = argc > 3 ? argv[3] : "pairs";
         long walks = argc > 4 ? atol(argv[4]) : 2000;
@@ -732,7 +812,12 @@ int main(int argc, char **argv)
         else if (variant == "mixed")
             record<Tagged>(argv[2], nops, seed + 1, RecCfg{40, 1000, 35, 5, 700, false, {16, 1024, 16384}});
         else if (variant == "nonrep")
+        {
+#if !defined(__SANITIZE_ADDRESS__)
+            g_keepFreed = true;
+#endif
             recordNonrep<int>(argv[2], nops, seed + 3);
+        }
         else if (variant == "ctor")
             record<int>(argv[2], nops, seed + 2, RecCfg{20, 64, 50, 4, 150, true, {8, 64, 4096}});
         else
@@ -744,4 +829,52 @@ int main(int argc, char **argv)
     }
     fprintf(stderr, "usage: pdf replay <graph> [pairs|edges] [walks] [shard nshards] | pdf record <out> <nops> <small|mixed|ctor|nonrep>\n");
     return 2;
+}
+
+// The work is done in a child process; the parent only waits and, if the child died (sanitizer
+// abort, signal), prints where it was:  CRASHWHERE {"scenario": [...]}  or  {"op": "..."}.
+int main(int argc, char **argv)
+{
+    void *m = mmap(nullptr, sizeof(Shared), PROT_READ | PROT_WRITE, MAP_SHARED | MAP_ANONYMOUS, -1, 0);
+    if (m == MAP_FAILED)
+        return work(argc, argv);
+    g_sh = static_cast<Shared *>(m);
+    memset(g_sh, 0, sizeof(Shared));
+    fflush(stdout);
+    fflush(stderr);
+    pid_t pid = fork();
+    if (pid <= 0)
+        return work(argc, argv);  // the child, or no supervision when fork failed
+    int st = 0;
+    if (waitpid(pid, &st, 0) < 0)
+        return 2;
+    const int code = WIFEXITED(st) ? WEXITSTATUS(st) : 70;
+    if (WIFEXITED(st) && code >= 0 && code <= 4)
+        return code;  // 0 / 1 verdicts, 2-4 usage and framework errors
+    std::string mode = argc > 1 ? argv[1] : "";
+    json where;
+    if (mode == "replay" && argc > 2)
+    {
+        vt::Graph g(argv[2]);
+        std::vector<int> path;
+        for (int i = 0; i < g_sh->len && i < 60; ++i)
+            if (g_sh->edges[i] >= 0 && g_sh->edges[i] < (int)g.edges.size())
+                path.push_back(g_sh->edges[i]);
+        where = json{{"scenario", vt::describe(g, path)}};
+    }
+    else
+    {
+        g_sh->note[sizeof g_sh->note - 1] = 0;
+        where = json{{"op", std::string(g_sh->note)}};
+        if (code != 70 && argc > 2)
+            if (FILE *f = fopen(argv[2], "a"))
+            {
+                // the vt crash handler (exit 70) has already appended its own Crash event
+                fprintf(f, "%s\n", json{{"e", "Crash"}, {"what", std::string("died in ") + g_sh->note}}.dump().c_str());
+                fclose(f);
+            }
+    }
+    printf("CRASHWHERE %s\n", where.dump().c_str());
+    fflush(stdout);
+    return code;
 }
